@@ -403,6 +403,30 @@ def project(line, ch):
 CHANNELS = ['val', 'shape', 'alloc', 'life', 'ledger', 'iter', 'trace', 'exc']
 
 
+def bridged(line):
+    """mirror of Bridge.toMOp (lean/SvModel/Properties/Bridge.lean): does the protocol line have a counterpart in the history
+    language of Properties/System.lean?  (statistics only)"""
+    t = line.split(' @')[0].split(' !')[0].split()
+    if not t:
+        return False
+    o = t[0]
+    if o in ('newv', 'newg', 'newm', 'del', 'insm', 'era', 'erar', 'pop', 'clr', 'rsz', 'rsv', 'stf', 'asn', 'asc', 'asm', 'swp', 'appc', 'appm'):
+        return True
+    if o == 'newc':
+        return len(t) > 3 and t[3] != '-'
+    if o == 'newr':
+        return len(t) > 2 and t[2] in ('fw', 'ra')
+    if o in ('pb', 'ins', 'insn'):
+        return True
+    if o == 'rszv':
+        return not t[-1].startswith('s')
+    if o == 'insr':
+        return len(t) > 4 and t[3] in ('fw', 'ra') and t[4] != '-'
+    if o in ('asr', 'app'):
+        return len(t) > 2 and t[2] in ('fw', 'ra')
+    return False
+
+
 # --------------------------------------------------------------------------------------------------
 # the differential run
 # --------------------------------------------------------------------------------------------------
@@ -476,6 +500,9 @@ def run_chunk(cfg, exe, chunk):
         m = mobs[i] if i < len(mobs) else '<missing>'
         opk = l.split()[0]
         st['op:' + opk] = st.get('op:' + opk, 0) + 1
+        if h not in ('invalid', 'bad-op') and bridged(l):
+            # the model program of this line is one the history theorems quantify over (Properties/Bridge.lean: toMOp)
+            st['lines_bridged_to_history_theorems'] = st.get('lines_bridged_to_history_theorems', 0) + 1
         if h in ('invalid', 'bad-op'):
             st['invalid'] = st.get('invalid', 0) + 1
         if h == 'bad-op' or m == 'bad-op':
